@@ -104,6 +104,19 @@ def variant_name(prog, v, ty):
     return vs[v.disc] if isinstance(v.disc, int) and v.disc < len(vs) else None
 
 
+def io_error_kind_stub(prog):
+    """io::Error::kind() for the model's IoError values (named after the ErrorKind variant they stand for)"""
+    vs = prog.types.variants('ErrorKind')
+
+    def h(ex, st, fn, argv):
+        e = deref(ex, st, argv[0])
+        name = lit_text(e.fields[0].s).strip('"')
+        if not vs or name not in vs:
+            raise Unsupported(f"io::ErrorKind variants unknown (rust-src of the nightly toolchain not found) or no variant {name}")
+        return [(st, Enum(vs.index(name), {}, 'ErrorKind'))]
+    return h
+
+
 def earlier_kept(w):
     """whatever was queued for writing before the step is still queued, in place (nothing dropped from the front, nothing cleared)"""
     return z3.And(w.outbuf.abs == 0, z3.UGE(w.outbuf.len, w.outbuf.items[0]['len'])) if w.outbuf.items else z3.BoolVal(True)
